@@ -454,7 +454,8 @@ class World(object):
                             and not self.ended and info.get("why") != "refail"):
                         self.depth += 1
                         try:
-                            self._api_publish(c, info["qos"] or 1, False, 3, "refail")
+                            # the application talks to its current protocol object for that address
+                            self._api_publish(self.cur.get(c.a, c), info["qos"] or 1, False, 3, "refail")
                         finally:
                             self.depth -= 1
                 else:
@@ -507,7 +508,12 @@ class World(object):
         topic = self._topic(tkind, tok)
         info = {"token": tok, "qos": qos, "retain": retain, "topic": topic, "payload": body,
                 "why": why}
-        return self._api(c, "publish", c.proto.publish, ((topic, payload), {"qos": qos, "retain": retain}), info)
+        ret = self._api(c, "publish", c.proto.publish, ((topic, payload), {"qos": qos, "retain": retain}), info)
+        if isinstance(payload, bytearray) and tok % 2 == 0:
+            # the application re-uses its buffer once publish() has returned: what was published is
+            # the content at the time of the call
+            payload[:] = b"buffer re-used after publish() returned"
+        return ret
 
     def _api_subscribe(self, c, shape, n, qos, tkind="plain"):
         toks = []
